@@ -350,13 +350,12 @@ Definition all_deletes_issued (plan : list (string * Z)) (cs : list call) : bool
   forallb (fun n => existsb (fun c => match c with CDelProc n' false => String.eqb n n' | _ => false end) cs)
           (map fst plan).
 
-(* no DeleteProcessing of the deployment was observed to fail *)
-Fixpoint no_failed_delete (cs : list call) (rs : list bool) : bool :=
-  match cs, rs with
-  | CDelProc _ _ :: ct, r :: rt => r && no_failed_delete ct rt
-  | _ :: ct, _ :: rt => no_failed_delete ct rt
-  | _, _ => true
-  end.
+(* no DeleteProcessing of the deployment was made to fail by the harness (only an
+   INJECTED store failure excuses a remaining marker; a deletion that fails for any
+   other reason - e.g. because it was issued with the caller's cancelled context -
+   does not) *)
+Definition no_injected_delete (cs : list call) : bool :=
+  forallb (fun c => match c with CDelProc _ true => false | _ => true end) cs.
 
 Definition ok (c : case) : bool :=
   match c_probes c with
@@ -369,7 +368,7 @@ Definition ok (c : case) : bool :=
       && (if all_deletes_issued (c_plan c) (c_calls c)
           then exact_ok (c_init c) (c_nodes c) (last (c_probes c) prior) && negb (c_markers_left c)
           else true)
-      (* a deployment that returned and none of whose marker deletions failed leaves no marker -
+      (* a deployment that returned and none of whose marker deletions was injected to fail leaves no marker -
          whatever its plan was (also for nodes planned with 0 instances) and wherever it stopped *)
-      && (if c_returned c && no_failed_delete (c_calls c) (c_results c) then negb (c_markers_left c) else true)
+      && (if c_returned c && no_injected_delete (c_calls c) then negb (c_markers_left c) else true)
   end.
